@@ -265,8 +265,9 @@ def run_batch(prop_id, tier, seed, runs=None, workers=None, max_wall=None, selft
                         st["pairs"] += 1
                         if fresh.get(i) != byidx[i]["fingerprint"]:
                             st["mismatches"] += 1
+                            st.setdefault("mismatching_run_indices", []).append(i)
                     if st["mismatches"]:
-                        harness_errors.append(f"determinism self-test: {st['mismatches']} of {st['pairs']} fingerprints differ in a fresh interpreter")
+                        harness_errors.append(f"determinism self-test: {st['mismatches']} of {st['pairs']} fingerprints differ in a fresh interpreter (run indices {st['mismatching_run_indices']})")
                 except Exception as e:
                     harness_errors.append(f"determinism self-test failed to run: {e}")
 
